@@ -164,6 +164,7 @@ var vfC15Cols = []vfCol{{"p", vfTInt}, {"i", vfTInt}, {"s", vfTVarchar}, {"b", v
 func vfC15Blob(p, i int) []byte {
 	return []byte(fmt.Sprintf("B%d.%d%s", p, i, strings.Repeat("x", (p*3+i)%5)))
 }
+
 var vfC15Cons = []Consistency{Quorum, One, LocalQuorum}
 
 const vfC15MaxReqs = 40 // the node fails every request beyond this one (runaway guard)
@@ -193,8 +194,8 @@ type vfC15Run struct {
 type vfC15Group struct {
 	job     int
 	mu      sync.Mutex
-	members []*vfC15Run       // index member-1 (single: one entry)
-	waves   map[int][]func()  // concurrent: held answers per page level
+	members []*vfC15Run      // index member-1 (single: one entry)
+	waves   map[int][]func() // concurrent: held answers per page level
 }
 
 func (g *vfC15Group) member(m int) *vfC15Run {
@@ -231,19 +232,20 @@ func (g *vfC15Group) hold(level int, answer func()) {
 			g.waves[level] = nil
 			g.mu.Unlock()
 			for _, a := range fl {
-				go a()
+				a()
 			}
 		})
 	}
+	// one after the other into the connection's send queue: the answers of a wave reach the driver back to back
 	for _, a := range flush {
-		go a()
+		a()
 	}
 }
 
 type vfC15Worker struct {
 	id    int
-	sess  [2]*Session
-	nodes [2]*vfNode
+	sess  [4]*Session // [skip]: the sequential cases; [2+skip]: the concurrent cases (sessions of their own)
+	nodes [4]*vfNode
 	cur   atomic.Value // *vfC15Run
 	churn [2]*Query
 	stale int64    // requests that belong to no running iteration
@@ -462,22 +464,34 @@ func (r *vfC15Run) emitResp(page, ok, next int) {
 
 func vfC15NewWorker(id int) (*vfC15Worker, error) {
 	w := &vfC15Worker{id: id}
-	for skip := 0; skip < 2; skip++ {
-		cl := &vfCluster{Partitioner: "org.apache.cassandra.dht.Murmur3Partitioner", Version: "3.11.4"}
-		d := vfDesc(1)
-		cl.Set([]vfHostDesc{d})
-		n := vfNewNode(cl, d)
-		n.Handler = w.handle
-		disable := skip == 0
-		s, _, err := vfSingleNodeSession(n, 4, func(cfg *ClusterConfig) {
-			cfg.DisableSkipMetadata = disable
-			cfg.Timeout = 20 * time.Second // far above anything the scripted node does: a timeout is never paging behaviour
-		})
-		if err != nil {
-			return nil, err
+	for k := 0; k < 4; k++ {
+		skip, conns := k&1, 1
+		_ = k // (the concurrent cases use one connection as well: its answers reach the waiting goroutines back to back)
+		var lastErr error
+		for attempt := 0; attempt < 4 && w.sess[k] == nil; attempt++ { // set-up is retried: a loaded machine is not a verdict
+			cl := &vfCluster{Partitioner: "org.apache.cassandra.dht.Murmur3Partitioner", Version: "3.11.4"}
+			d := vfDesc(1)
+			cl.Set([]vfHostDesc{d})
+			n := vfNewNode(cl, d)
+			n.Handler = w.handle
+			disable := skip == 0
+			s, _, err := vfSingleNodeSession(n, 4, func(cfg *ClusterConfig) {
+				cfg.DisableSkipMetadata = disable
+				cfg.NumConns = conns
+				cfg.Timeout = 20 * time.Second // far above anything the scripted node does: a timeout is never paging behaviour
+				cfg.ConnectTimeout = 20 * time.Second
+			})
+			if err != nil {
+				lastErr = err
+				time.Sleep(200 * time.Millisecond)
+				continue
+			}
+			w.sess[k] = s
+			w.nodes[k] = n
 		}
-		w.sess[skip] = s
-		w.nodes[skip] = n
+		if w.sess[k] == nil {
+			return nil, lastErr
+		}
 	}
 	return w, nil
 }
@@ -659,11 +673,11 @@ func (w *vfC15Worker) runExec(c vfC15Case, exec int, q *Query, rel int, seed int
 		"rebind", c.Rebind, "opt", c.Opt, "member", r.member)
 
 	rows := [][2]int{}
-	row := func(p, i int, sv string) {
+	row := func(p, i int, sv string, bv []byte) {
 		if n := len(rows); n < len(r.lpause) && r.lpause[n] > time.Microsecond && c.Kind != "SliceMap" {
 			time.Sleep(r.lpause[n])
 		}
-		if sv != fmt.Sprintf("r%d.%d", p, i) {
+		if sv != fmt.Sprintf("r%d.%d", p, i) || string(bv) != string(vfC15Blob(p, i)) {
 			p = -1000 - p // a row whose columns do not belong together
 		}
 		rows = append(rows, [2]int{p, i})
@@ -692,6 +706,9 @@ func (w *vfC15Worker) runExec(c vfC15Case, exec int, q *Query, rel int, seed int
 	}
 	var err error
 	var iter *Iter
+	var reuse []byte
+	var held []map[string]interface{}
+	var heldB []string
 	panicked := ""
 	ok, dump := vfWithin(60*time.Second, func() {
 		defer func() {
@@ -713,10 +730,11 @@ func (w *vfC15Worker) runExec(c vfC15Case, exec int, q *Query, rel int, seed int
 				pause()
 				var p, i int
 				var sv string
-				if !iter.Scan(&p, &i, &sv) {
+				var bv []byte
+				if !iter.Scan(&p, &i, &sv, &bv) {
 					break
 				}
-				row(p, i, sv)
+				row(p, i, sv, bv)
 			}
 			err = iter.Close()
 		case "Scanner":
@@ -728,23 +746,32 @@ func (w *vfC15Worker) runExec(c vfC15Case, exec int, q *Query, rel int, seed int
 				}
 				var p, i int
 				var sv string
-				if e := sc.Scan(&p, &i, &sv); e != nil {
+				var bv []byte
+				if e := sc.Scan(&p, &i, &sv, &bv); e != nil {
 					p, i, sv = -1, -1, e.Error()
 				}
-				row(p, i, sv)
+				row(p, i, sv, bv)
 			}
 			err = sc.Err()
 		case "MapScan":
 			for more() {
 				pause()
+				// a new map every call (as documented); odd runs pass the same *[]byte destination again each time.
+				// The caller keeps the maps and reads them again after the iteration.
 				m := map[string]interface{}{}
+				if c.Run%2 == 1 {
+					m["b"] = &reuse
+				}
 				if !iter.MapScan(m) {
 					break
 				}
 				p, _ := m["p"].(int)
 				i, _ := m["i"].(int)
 				sv, _ := m["s"].(string)
-				row(p, i, sv)
+				bv, _ := m["b"].([]byte)
+				held = append(held, m)
+				heldB = append(heldB, string(bv))
+				row(p, i, sv, bv)
 			}
 			err = iter.Close()
 		default: // SliceMap
@@ -754,7 +781,8 @@ func (w *vfC15Worker) runExec(c vfC15Case, exec int, q *Query, rel int, seed int
 				p, _ := m["p"].(int)
 				i, _ := m["i"].(int)
 				sv, _ := m["s"].(string)
-				row(p, i, sv)
+				bv, _ := m["b"].([]byte)
+				row(p, i, sv, bv)
 				if len(rows) > vfC15MaxRows {
 					break
 				}
@@ -817,7 +845,16 @@ func (w *vfC15Worker) runExec(c vfC15Case, exec int, q *Query, rel int, seed int
 	} else if stopped {
 		normal, res.Ended = 2, "abandoned" // the caller stopped after `stop` rows; Close reported no error
 	}
-	r.tr.Emit("end", "run", r.id, "normal", normal, "errpage", errpage, "exposed", exposed, "errmsg", msg, "qtok", qtok)
+	// the rows the caller kept: are they still what it was handed?
+	changed := 0
+	for k, m := range held {
+		if bv, _ := m["b"].([]byte); string(bv) != heldB[k] {
+			changed++
+		}
+	}
+	res.Changed = changed
+	r.tr.Emit("end", "run", r.id, "normal", normal, "errpage", errpage, "exposed", exposed, "errmsg", msg, "qtok", qtok,
+		"changed", changed)
 	r.pending.Wait()
 	if stopped {
 		w.abJob.Store(c.Run, true)
